@@ -168,7 +168,8 @@ class RecursiveDescent(object):
             self.error_msg("Expected {}, found {}", typ, self.token.typ)
 
     def error_msg(self, format, *args):
-        msg = format.format(*args)
+        # Callers may pass an already formatted message; do not format it again.
+        msg = format.format(*args) if args else format
         ptr = " " * self.token.column + "^"
         raise RuntimeError("\n".join(["Parse Error", self.decl, ptr, msg]))
 
